@@ -55,3 +55,15 @@ Proof.
   assumption.
 Qed.
 Print Assumptions C01_lattice_classes_follow_one_descriptor.
+
+(* resampling classes whose image path is generated (SciPy zoom as a shape + order-0 source model):
+   image and mask come back with the same shape for every image interpolation order *)
+From DV.proofs Require Import Resample Values.
+From DV.gen Require Import Gen_cls_resize.
+Theorem C01_Resize_and_RandomScale_same_shape :
+  (forall sd sh sw v ip c r s H W D, vshape v = (H, W, D) -> (0 < H)%Z -> (0 < W)%Z -> (0 < D)%Z ->
+     exists vi vm, Resize_apply sd sh sw v ip c r s = Ok vi /\ Resize_apply_to_mask sd sh sw v ip c r s = Ok vm /\
+       vshape vi = (sh, sw, sd) /\ vshape vm = (sh, sw, sd) /\ forall P, fills_in P v -> fills_in P vm) /\
+  (forall v sc ip c r s, vshape (RandomScale_apply v sc ip c r s) = vshape (RandomScale_apply_to_mask v sc ip c r s)).
+Proof. split; [exact Resize_image_and_mask | intros; apply RandomScale_image_and_mask]. Qed.
+Print Assumptions C01_Resize_and_RandomScale_same_shape.
